@@ -372,6 +372,58 @@ func byzCatalogue(e common.Env) []byzScenario {
 			}
 		}
 	}
+	// PRNG mixtures: the Byzantine parties send a random list of messages drawn from a pool (both versions of their own
+	// broadcast for two rounds, acknowledgements about anybody with the digest of any known payload, copies of the honest
+	// sender's payload) to random honest destinations; honest parties broadcast concurrently.
+	mixes := e.Pick(40, 600)
+	for k := 0; k < mixes; k++ {
+		k := k
+		n := 3 + k%3
+		acc := 0
+		if n >= 4 {
+			acc = k % (n - 2)
+		}
+		byz := []uint16{S}
+		for a := 0; a < acc; a++ {
+			byz = append(byz, uint16(n-a))
+		}
+		var honest []uint16
+		for i := 2; i <= n-acc; i++ {
+			honest = append(honest, uint16(i))
+		}
+		seed := e.Rng("byzmix", k).Int63()
+		add(fmt.Sprintf("random-mixture #%d", k), n, byz, 0, e.Pick(40, 300), func(w *rworld) {
+			rng := rand.New(rand.NewSource(seed))
+			H := honest[rng.Intn(len(honest))]
+			w.honestBroadcast(H, 1)
+			if rng.Intn(2) == 0 {
+				w.honestP2P(H, 1)
+			}
+			var pool []*rmsg
+			for _, r := range []uint8{1, 2} {
+				for v := 1; v <= 2; v++ {
+					m := payloadMsg(S, r, v, true, 0xffff)
+					pool = append(pool, m)
+					pool = append(pool, ackMsg(S, r, m.digest, "mix-self"))
+				}
+			}
+			hp := payloadMsg(H, 1, 1, true, 0xffff)
+			hf := payloadMsg(H, 1, 2, true, 0xffff)
+			pool = append(pool, hp, ackMsg(H, 1, hp.digest, "mix-about-honest"), ackMsg(H, 1, hf.digest, "mix-forged-about-honest"), ackMsg(H, 2, hp.digest, "mix-other-round"),
+				payloadMsg(S, 1, 1, false, honest[0]))
+			cnt := 4 + rng.Intn(10)
+			for i := 0; i < cnt; i++ {
+				from := byz[rng.Intn(len(byz))]
+				to := honest[rng.Intn(len(honest))]
+				m := pool[rng.Intn(len(pool))]
+				if !m.isAck && m.bcast && from != S && string(m.payload) != string(hp.payload) {
+					// an accomplice re-sending the Byzantine sender's payload under its own identity is a broadcast of the accomplice
+				}
+				cp := *m
+				w.push(from, to, &cp)
+			}
+		})
+	}
 	return out
 }
 
